@@ -1037,7 +1037,7 @@ func runC25(tier, replay string) {
 		r.Finish()
 	}
 
-	n := r.N(320, 4000)
+	n := r.N(480, 4000)
 	const workers = 4
 	const perEnv = 20
 	var wg sync.WaitGroup
